@@ -29,8 +29,8 @@ func init() {
 		Floor:         featList("op.eq", "op.ne", "op.lt", "op.le", "op.gt", "op.ge", "and", "or", "not", "in", "notin", "in.subquery", "between", "notbetween", "like", "notlike", "isnull", "isnotnull", "istrue", "isfalse", "law.partition", "law.notin", "law.between"),
 		MinNontrivial: 50,
 		Phases: []fw.Phase{
-			{Name: "pred", N: func(t fw.Tier) int { return pick(t, 4000, 400000) }, Run: c01Pred},
-			{Name: "laws", N: func(t fw.Tier) int { return pick(t, 1500, 100000) }, Run: c01Laws},
+			{Name: "pred", N: func(t fw.Tier) int { return pick(t, 16000, 600000) }, Run: c01Pred},
+			{Name: "laws", N: func(t fw.Tier) int { return pick(t, 6000, 150000) }, Run: c01Laws},
 		},
 		Witness: sqlWitness,
 	})
